@@ -33,8 +33,8 @@ def sh(cmd, **kw):
 class Worker:
     def __init__(self, k):
         self.k = k
-        self.repo = "/tmp/pr-%d" % k
-        self.work = "/tmp/prw-%d" % k
+        self.repo = "/tmp/pr%s-%d" % (os.environ.get("PR_TAG", ""), k)
+        self.work = "/tmp/prw%s-%d" % (os.environ.get("PR_TAG", ""), k)
         sh("git -C %s worktree remove --force %s" % (REPO, self.repo))
         shutil.rmtree(self.repo, ignore_errors=True)
         r = sh("git -C %s worktree add -q --detach %s HEAD" % (REPO, self.repo))
@@ -99,7 +99,8 @@ def job_seed(w, name, d):
     for p in props:
         rc, out, dt = w.check(p)
         if rc == 1:
-            caught.append(p)
+            rules = sorted({l.split()[0] for l in vio(out) if re.match(r"\s+C[0-9][0-9]\.", l)})
+            caught.append(p + ("[" + ",".join(rules[:4]) + "]" if rules else ""))
     w.reset()
     if m.get("not_caught"):
         # recorded honestly as outside the reach of the present rules (see meta.json / DESIGN 7.4); a check that starts catching
